@@ -66,11 +66,45 @@ def _enum_variants(src, name):
     return out
 
 
+# Transcription anchor: the body of LuaLexer::tokenize as it was transcribed into coq/theories/C01/LexModel.v
+# ([tokenize_from]: shebang prologue, then the loop).  Code added before/around the loop is reached only by special
+# inputs, so a reshaped body is reported as a broken tie (the model must be re-transcribed) instead of being left to sampling.
+TOKENIZE_SHAPE = (
+    "let mut tokens = vec![]; if self.state == LexerState::Normal && self.reader.current_char() == '#' { "
+    "self.reader.eat_while(|ch| ch != '\\n' && ch != '\\r'); tokens.push(LuaTokenData::new( LuaTokenKind::TkShebang, "
+    "self.reader.current_range(), )); } while !self.reader.is_eof() { let kind = match self.state { LexerState::Normal => self.lex(), "
+    "LexerState::String(quote) => self.lex_string(quote), LexerState::LongString(sep) => self.lex_long_string(sep), "
+    "LexerState::LongComment(sep) => { self.lex_long_string(sep); LuaTokenKind::TkLongComment } }; if kind == LuaTokenKind::TkEof { break; } "
+    "tokens.push(LuaTokenData::new(kind, self.reader.current_range())); } tokens")
+# likewise LuaParser::parse: lexer on the whole text, parse_chunk, builder on the same text
+PARSE_SHAPE_MARKS = ["LuaLexer::new(Reader::new(text), config.lexer_config(), Some(&mut errors))", "lexer.tokenize()",
+                     "parse_chunk(&mut parser)", "parser.origin_text()", "builder.build()", "builder.finish()"]
+
+
+def _squash(s):
+    return re.sub(r"[\s,]+", "", s)
+
+
+def check_shapes(lx_src, lp_src):
+    body = _strip_comments(_body(lx_src, r"pub fn tokenize\(&mut self\) -> Vec<LuaTokenData>\s*\{", "LuaLexer::tokenize"))
+    if _squash(body) != _squash(TOKENIZE_SHAPE):
+        raise TableError("LuaLexer::tokenize no longer has the transcribed shape (shebang prologue + loop): the lexer model "
+                         "coq/theories/C01/LexModel.v (tokenize_from) must be re-transcribed; body now: %s" % re.sub(r"\s+", " ", body).strip()[:600])
+    pbody = _strip_comments(_body(lp_src, r"pub fn parse\(text: &'a str, config: ParserConfig\) -> LuaSyntaxTree\s*\{", "LuaParser::parse"))
+    sq = _squash(pbody)
+    pos = 0
+    for m in PARSE_SHAPE_MARKS:
+        i = sq.find(_squash(m), pos)
+        if i < 0:
+            raise TableError("LuaParser::parse no longer contains %r in the transcribed order (lex whole text, parse_chunk, build, finish)" % m)
+        pos = i
+
+
 def _kinds_in(text, prefix):
     return re.findall(r"%s::(\w+)" % prefix, text)
 
 
-def extract(repo):
+def extract(repo, check_transcription_anchors=True):
     base = "crates/emmylua_parser/src/"
     sk_src = _read(repo, base + "kind/lua_syntax_kind.rs")
     tk_src = _read(repo, base + "kind/lua_token_kind.rs")
@@ -83,6 +117,8 @@ def extract(repo):
     lv_src = _read(repo, base + "kind/lua_language_level.rs")
     digest = hashlib.sha256("\0".join([sk_src, tk_src, ft_src, lc_src, lx_src, gb_src, lp_src, dp_src, lv_src]).encode()).hexdigest()[:16]
 
+    if check_transcription_anchors:
+        check_shapes(lx_src, lp_src)
     t = {"digest": digest}
     t["syntax_kinds"] = _enum_variants(sk_src, "LuaSyntaxKind")
     t["token_kinds"] = _enum_variants(tk_src, "LuaTokenKind")
@@ -274,8 +310,9 @@ def render(t):
 
 
 def regenerate(repo, out_path):
-    """returns (tables, changed)"""
-    t = extract(repo)
+    """returns (tables, changed); the tables are written even when a transcription anchor no longer matches
+    (the anchor failure is raised afterwards, so that the rest of the check can still run in deep mode)"""
+    t = extract(repo, check_transcription_anchors=False)
     txt = render(t)
     old = open(out_path, encoding="utf8").read() if os.path.exists(out_path) else None
     if old != txt:
@@ -284,8 +321,11 @@ def regenerate(repo, out_path):
         with open(tmp, "w", encoding="utf8") as fh:
             fh.write(txt)
         os.replace(tmp, out_path)
-        return t, True
-    return t, False
+        changed = True
+    else:
+        changed = False
+    extract(repo, check_transcription_anchors=True)
+    return t, changed
 
 
 if __name__ == "__main__":
